@@ -47,6 +47,53 @@
    Item kinds: "e" keyed event (identity <<sr, idx>>), "w" watermark (the j-th
    watermark of a sender has value j), "b" barrier.
 
+   Faults (environment actions, each switched by a constant; with MaxCancel =
+   MaxHFail = 0 and every Dev_* FALSE the state graph is the fault-free one):
+
+     CancelCaller(sr)  : the request context of runner sr is cancelled (client
+                         deadline, dropped connection) - at any moment: while
+                         its call is parked for alignment, queued, or while its
+                         barrier is being processed.  The RPC handler keeps
+                         calling HandleEvent with the same context for the
+                         rest of the request, so cx[sr] stays TRUE until one of
+                         these calls returns an error (the runner then stops).
+                         Nothing in HandleEvent itself looks at the context:
+                         neither the alignment wait nor the rendezvous with
+                         the event loop.  The context reaches (a) the handler
+                         call of a flush made by that caller's closure
+                         (HonourCtx: the handler fails when its ctx is done,
+                         as the connect clients do; FALSE: a handler that
+                         ignores ctx) and (b) job.OperatorCheckpointComplete
+                         of the caller that carried the last barrier (the job
+                         client always honours its ctx).
+     ArmHandlerFail    : the next handler invocation returns an error
+                         (transient: later calls succeed).
+     TimerFire/LoopBatchTimeout : the batch time-out (as before); its flush
+                         runs with the operator's own context.
+     stopped           : terminal - processEvents returned an error (a failed
+                         time-out flush), Start shuts the operator down.
+
+   processEventBatch takes the batch out of the batcher BEFORE it calls the
+   handler; a failed call therefore drops the batch, including events whose
+   own HandleEvent call returned nil long ago.  What keeps a hollow checkpoint
+   from being reported: the error goes to the caller whose closure flushed
+   (that runner stops, so no later checkpoint can get all its barriers), a
+   failed time-out flush stops the operator, a failed flush in front of the
+   checkpoint fails the barrier (repaired: the error used to be ignored,
+   Dev_IgnoreBarrierFlushError), a failed report leaves the checkpoint object
+   open for ever.  `doomed` (ghost) = one of these failures happened: this
+   operator instance will never report a checkpoint again, and what is applied
+   afterwards can no longer reach a checkpoint (NoEarlyApply is only demanded
+   before).
+
+   Deviations (regression witnesses, CexDump): Dev_CtxAwareWait (a cancelled
+   parked caller is let through), Dev_SwallowFlushError (a failed time-out
+   flush is logged, the loop carries on), Dev_ReportWithoutCancel (the report
+   is made with a context detached from the caller's),
+   Dev_IgnoreBarrierFlushError (see above), Dev_SwallowEventFlushError /
+   Dev_SwallowWatermarkFlushError (the error of a flush made by an event's /
+   a watermark's closure is logged and the caller is told nil).
+
    Reference handler (harness/cmd/align): a keyed event writes the state
    entry seen(sr,idx) and registers a timer for its own key at W+1 where W is
    the watermark of the request; a TimerExpired writes fired(sr,idx).  So the
@@ -61,7 +108,14 @@ CONSTANTS NS,        \* number of senders
           MaxFires,  \* bound on batch-timer expiries
           MaxW,      \* bound on watermarks per sender
           MaxSkip,   \* how many barrier ids may be skipped (over all senders)
-          MaxLen     \* behaviour length bound (generation only)
+          MaxLen,    \* behaviour length bound (generation only)
+          MaxCancel, \* how many request contexts may be cancelled (0: fault off)
+          MaxHFail,  \* how many handler invocations may be made to fail (0: fault off)
+          HonourCtx, \* the handler fails when the context of its call is cancelled
+          FaultFrom, \* set of naturals: no fault before that many items were sent in total (chosen per
+                     \* behaviour; {0} for exhaustive runs, a range to spread the faults of simulated behaviours)
+          Dev_CtxAwareWait, Dev_SwallowFlushError, Dev_ReportWithoutCancel, Dev_IgnoreBarrierFlushError,
+          Dev_SwallowEventFlushError, Dev_SwallowWatermarkFlushError
 
 Senders == 1..NS
 None == -1
@@ -75,12 +129,18 @@ VARIABLES slen, sent, pc, waitfor, nskip,  \* senders
           seen, fired, timers,           \* DKV contents (through the reference handler)
           cut, acks,                     \* ghost: contents of checkpoint n; OperatorCheckpointComplete calls
           lastcalls,                     \* ghost: handler calls made by the last step
+          cx, ncancel,                   \* faults: cancelled request contexts
+          failnext, nhfail,              \* faults: the next handler invocation fails
+          stopped,                       \* Start returned (processEvents failed)
+          fstart,                        \* faults may strike once this many items were sent (fixed per behaviour)
+          doomed, early,                 \* ghost: a failure was handed out / a post-barrier unit was applied early
           hist
 
 vars == <<slen, sent, pc, waitfor, nskip, ck, nclosed, loop, lph, batch, token, armed, inflight, nfired,
-          wm, seen, fired, timers, cut, acks, lastcalls, hist>>
+          wm, seen, fired, timers, cut, acks, lastcalls, cx, ncancel, failnext, nhfail, stopped, fstart, doomed, early, hist>>
+fvars == <<cx, ncancel, failnext, nhfail, stopped, fstart, doomed, early>>
 view == <<slen, sent, pc, waitfor, nskip, ck, nclosed, loop, lph, batch, token, armed, inflight, nfired,
-          wm, seen, fired, timers, cut, acks>>
+          wm, seen, fired, timers, cut, acks, cx, ncancel, failnext, nhfail, stopped, fstart, doomed, early>>
 
 NoCk == [open |-> FALSE, id |-> 0, missing |-> {}]
 
@@ -95,6 +155,8 @@ Init ==
   /\ seen = {} /\ fired = {} /\ timers = {}
   /\ cut = [n \in {} |-> 0] /\ acks = <<>>
   /\ lastcalls = <<>> /\ hist = <<>>
+  /\ cx = [s \in Senders |-> FALSE] /\ ncancel = 0 /\ failnext = FALSE /\ nhfail = 0
+  /\ stopped = FALSE /\ doomed = FALSE /\ early = FALSE /\ fstart \in FaultFrom
 
 Log(r) == hist' = Append(hist, r)
 
@@ -124,34 +186,41 @@ CutWm(n) == Min({Cardinality({j \in 1..Len(sent[s]) : j < BarrierPos(s, n) /\ se
 AllowIdx(s) == LET ps == {i \in 1..Len(sent[s]) : sent[s][i].k = "b" /\ sent[s][i].v \notin Rg(acks)}
                IN IF ps = {} THEN Inf ELSE Min(ps) - 1
 AllowWm == Min({Cardinality({j \in 1..Len(sent[s]) : j <= AllowIdx(s) /\ sent[s][j].k = "w"}) : s \in Senders})
-Allow == [idx |-> [s \in Senders |-> AllowIdx(s)], wm |-> AllowWm]
+Allow == [idx |-> [s \in Senders |-> AllowIdx(s)], wm |-> AllowWm, doomed |-> doomed]
 
 \* ---- the loop's machine state as a record (so that closures can be written
 \*      as functions) -----------------------------------------------------
 M == [batch |-> batch, token |-> token, armed |-> armed, seen |-> seen, fired |-> fired,
-      timers |-> timers, calls |-> <<>>]
+      timers |-> timers, calls |-> <<>>, fn |-> failnext, err |-> FALSE]
 
 EvUnit(s, i) == [t |-> "e", sr |-> s, idx |-> i, T |-> 0, csr |-> s, cidx |-> i]
 TmUnit(tm, s, i) == [t |-> "t", sr |-> tm.sr, idx |-> tm.idx, T |-> tm.T, csr |-> s, cidx |-> i]
 
-\* processEventBatch on a non-empty flushed batch: handler call, then timers
-\* and mutations of the response are applied
-Process(m, W) ==
+\* processEventBatch on a non-empty flushed batch: the batch is taken out of
+\* the batcher, then the handler is called with the context cxl (TRUE =
+\* cancelled) of whoever flushes; on success the timers and mutations of the
+\* response are applied, on failure the batch is gone and the error is
+\* returned (m.err)
+Process(m, W, cxl) ==
   IF m.batch = <<>> THEN m ELSE
   LET us == {m.batch[i] : i \in 1..Len(m.batch)}
       evs == {u \in us : u.t = "e"}
       tms == {u \in us : u.t = "t"}
-  IN [m EXCEPT !.batch = <<>>, !.token = @ + 1, !.armed = None,
+      fail == m.fn \/ (HonourCtx /\ cxl)
+  IN IF fail
+     THEN [m EXCEPT !.batch = <<>>, !.token = @ + 1, !.armed = None, !.fn = FALSE, !.err = TRUE,
+                    !.calls = Append(@, [items |-> m.batch, w |-> W, fail |-> TRUE])]
+     ELSE [m EXCEPT !.batch = <<>>, !.token = @ + 1, !.armed = None,
                !.seen = @ \cup {[sr |-> u.sr, idx |-> u.idx] : u \in evs},
                !.timers = @ \cup {[sr |-> u.sr, idx |-> u.idx, T |-> W + 1] : u \in evs},
                !.fired = @ \cup {[sr |-> u.sr, idx |-> u.idx, T |-> u.T] : u \in tms},
-               !.calls = Append(@, [items |-> m.batch, w |-> W])]
+               !.calls = Append(@, [items |-> m.batch, w |-> W, fail |-> FALSE])]
 
 \* eventBatcher.Add; if IsFull then processEventBatch(CurrentBatch)
-AddUnit(m, u, W) ==
+AddUnit(m, u, W, cxl) ==
   LET m1 == [m EXCEPT !.batch = Append(@, u),
                       !.armed = IF m.batch = <<>> /\ UseTimer THEN m.token ELSE @]
-  IN IF Len(m1.batch) >= MaxSize THEN Process(m1, W) ELSE m1
+  IN IF Len(m1.batch) >= MaxSize THEN Process(m1, W, cxl) ELSE m1
 
 TLess(a, b) == \/ a.T < b.T
                \/ a.T = b.T /\ (a.sr < b.sr \/ (a.sr = b.sr /\ a.idx < b.idx))
@@ -160,18 +229,29 @@ SortTimers(S) == IF S = {} THEN <<>>
                  ELSE LET x == CHOOSE x \in S : \A y \in S \ {x} : TLess(x, y)
                       IN <<x>> \o SortTimers(S \ {x})
 
-\* handleWatermark: every due timer is deleted from the store and added to the batch
-RECURSIVE FireAll(_, _, _, _, _)
-FireAll(m, due, W, s, i) ==
-  IF due = <<>> THEN m
+\* handleWatermark: every due timer is deleted from the store and added to the
+\* batch; a failed flush ends the iteration (the timers not reached stay)
+RECURSIVE FireAll(_, _, _, _, _, _)
+FireAll(m, due, W, s, i, cxl) ==
+  IF due = <<>> \/ (m.err /\ ~Dev_SwallowWatermarkFlushError) THEN m
   ELSE LET tm == Head(due)
-       IN FireAll(AddUnit([m EXCEPT !.timers = @ \ {tm}], TmUnit(tm, s, i), W), Tail(due), W, s, i)
+       IN FireAll(AddUnit([m EXCEPT !.timers = @ \ {tm}], TmUnit(tm, s, i), W, cxl), Tail(due), W, s, i, cxl)
+
+\* a successful handler call that applies a unit delivered after a barrier
+\* whose checkpoint is not complete (judged against the state before the step)
+UnitOK(u, done) == BarriersBefore(u.csr, u.cidx) \subseteq done
+EarlyIn(calls) == \E i \in 1..Len(calls) : ~calls[i].fail /\ \E j \in 1..Len(calls[i].items) :
+                     ~UnitOK(calls[i].items[j], Rg(acks))
 
 SetM(m) == /\ batch' = m.batch /\ token' = m.token /\ armed' = m.armed
            /\ seen' = m.seen /\ fired' = m.fired /\ timers' = m.timers
-           /\ lastcalls' = m.calls
+           /\ lastcalls' = m.calls /\ failnext' = m.fn
+           /\ early' = (early \/ (~doomed /\ EarlyIn(m.calls)))
+NoFault == UNCHANGED fvars
+\* steps that make no handler call
+NoCall == UNCHANGED <<failnext, early>>
 
-LoopFree == loop = 0
+LoopFree == loop = 0 /\ ~stopped
 
 \* ---- sender actions ------------------------------------------------------
 \* the items s may send next: an event, its next watermark, its next barrier
@@ -196,34 +276,65 @@ AlignCheck(s, it) ==
         /\ waitfor' = [waitfor EXCEPT ![s] = IF park THEN ck.id ELSE 0]
         /\ Log([a |-> "AlignCheck", sr |-> s, k |-> k, v |-> it.v, idx |-> Len(sent[s]) + 1,
                 park |-> park, wf |-> IF park THEN ck.id ELSE 0])
-  /\ lastcalls' = <<>>
+  /\ lastcalls' = <<>> /\ NoFault
   /\ UNCHANGED <<slen, ck, nclosed, loop, lph, batch, token, armed, inflight, nfired, wm, seen, fired, timers, cut, acks>>
 
+\* the blocked sender is woken: the channel it waits on was closed - or
+\* (Dev_CtxAwareWait) its request context is done
 Unpark(s) ==
-  /\ pc[s] = "parked" /\ waitfor[s] <= nclosed
+  /\ pc[s] = "parked" /\ ~stopped
+  /\ waitfor[s] <= nclosed \/ (Dev_CtxAwareWait /\ cx[s])
   /\ pc' = [pc EXCEPT ![s] = "pass"] /\ waitfor' = [waitfor EXCEPT ![s] = 0]
-  /\ Log([a |-> "Unpark", sr |-> s])
-  /\ lastcalls' = <<>>
+  /\ Log([a |-> "Unpark", sr |-> s, dev |-> waitfor[s] > nclosed])
+  /\ lastcalls' = <<>> /\ NoFault
   /\ UNCHANGED <<slen, sent, nskip, ck, nclosed, loop, lph, batch, token, armed, inflight, nfired, wm, seen, fired, timers, cut, acks>>
 
 Enqueue(s) ==
   /\ LoopFree /\ pc[s] = "pass"
   /\ loop' = s /\ lph' = "run" /\ pc' = [pc EXCEPT ![s] = "loop"]
   /\ Log([a |-> "Enqueue", sr |-> s])
-  /\ lastcalls' = <<>>
+  /\ lastcalls' = <<>> /\ NoFault
   /\ UNCHANGED <<slen, sent, waitfor, nskip, ck, nclosed, batch, token, armed, inflight, nfired, wm, seen, fired, timers, cut, acks>>
+
+\* ---- faults ----------------------------------------------------------------
+\* the context of runner s's request is cancelled (s has a call in flight or
+\* will make another one)
+RECURSIVE SumLen(_)
+SumLen(S) == IF S = {} THEN 0 ELSE LET x == CHOOSE x \in S : TRUE IN Len(sent[x]) + SumLen(S \ {x})
+FaultsOpen == SumLen(Senders) >= fstart
+
+CancelCaller(s) ==
+  /\ ncancel < MaxCancel /\ ~cx[s] /\ ~stopped /\ FaultsOpen
+  /\ pc[s] # "dead" /\ ~(pc[s] = "idle" /\ Len(sent[s]) = slen[s])
+  /\ cx' = [cx EXCEPT ![s] = TRUE] /\ ncancel' = ncancel + 1
+  /\ Log([a |-> "CancelCaller", sr |-> s, pc |-> pc[s]])
+  /\ lastcalls' = <<>>
+  /\ UNCHANGED <<slen, sent, pc, waitfor, nskip, ck, nclosed, loop, lph, batch, token, armed, inflight, nfired, wm,
+                 seen, fired, timers, cut, acks, failnext, nhfail, stopped, fstart, doomed, early>>
+
+ArmHandlerFail ==
+  /\ LoopFree /\ nhfail < MaxHFail /\ ~failnext /\ FaultsOpen
+  /\ failnext' = TRUE /\ nhfail' = nhfail + 1
+  /\ Log([a |-> "ArmHandlerFail"])
+  /\ lastcalls' = <<>>
+  /\ UNCHANGED <<slen, sent, pc, waitfor, nskip, ck, nclosed, loop, lph, batch, token, armed, inflight, nfired, wm,
+                 seen, fired, timers, cut, acks, cx, ncancel, stopped, fstart, doomed, early>>
 
 \* ---- loop actions --------------------------------------------------------
 Return(s) == /\ loop' = 0 /\ lph' = "run" /\ pc' = [pc EXCEPT ![s] = "idle"]
 \* HandleEvent returned an error: the runner stops sending
 Fail(s) == /\ loop' = 0 /\ lph' = "run" /\ pc' = [pc EXCEPT ![s] = "dead"]
+RetOrFail(s, err) == IF err THEN Fail(s) ELSE Return(s)
+FaultKeep == UNCHANGED <<cx, ncancel, nhfail, stopped, fstart>>
 
 LoopEvent ==
   /\ loop # 0 /\ lph = "run" /\ Cur(loop).k = "e"
   /\ LET s == loop
-         m == AddUnit(M, EvUnit(s, Len(sent[s])), Comp(wm))
-     IN /\ SetM(m) /\ Return(s)
-        /\ Log([a |-> "LoopEvent", sr |-> s, calls |-> m.calls, allow |-> Allow])
+         m == AddUnit(M, EvUnit(s, Len(sent[s])), Comp(wm), cx[s])
+         err == m.err /\ ~Dev_SwallowEventFlushError
+     IN /\ SetM(m) /\ RetOrFail(s, err) /\ doomed' = (doomed \/ m.err)
+        /\ Log([a |-> "LoopEvent", sr |-> s, calls |-> m.calls, allow |-> Allow, err |-> err])
+  /\ FaultKeep
   /\ UNCHANGED <<slen, sent, waitfor, nskip, ck, nclosed, inflight, nfired, wm, cut, acks>>
 
 LoopWatermark ==
@@ -232,9 +343,11 @@ LoopWatermark ==
          wm2 == [wm EXCEPT ![s] = Cur(s).v]
          W == Comp(wm2)
          due == SortTimers({tm \in timers : tm.T <= W})
-         m == FireAll(M, due, W, s, Len(sent[s]))
-     IN /\ wm' = wm2 /\ SetM(m) /\ Return(s)
-        /\ Log([a |-> "LoopWatermark", sr |-> s, calls |-> m.calls, allow |-> Allow, w |-> W])
+         m == FireAll(M, due, W, s, Len(sent[s]), cx[s])
+         err == m.err /\ ~Dev_SwallowWatermarkFlushError
+     IN /\ wm' = wm2 /\ SetM(m) /\ RetOrFail(s, err) /\ doomed' = (doomed \/ m.err)
+        /\ Log([a |-> "LoopWatermark", sr |-> s, calls |-> m.calls, allow |-> Allow, w |-> W, err |-> err])
+  /\ FaultKeep
   /\ UNCHANGED <<slen, sent, waitfor, nskip, ck, nclosed, inflight, nfired, cut, acks>>
 
 \* handleCheckpointBarrier up to (excluding) db.Checkpoint
@@ -245,67 +358,85 @@ LoopBarrier ==
          c1 == IF ck.open THEN ck ELSE [open |-> TRUE, id |-> n, missing |-> Senders]
      IN IF c1.id # n
         THEN \* registerBarrier: "checkpoint ID mismatch" returned to the sender
-             /\ ck' = c1 /\ Fail(s) /\ lastcalls' = <<>>
-             /\ Log([a |-> "LoopBarrier", sr |-> s, n |-> n, last |-> FALSE, mismatch |-> TRUE, calls |-> <<>>, allow |-> Allow])
+             /\ ck' = c1 /\ Fail(s) /\ lastcalls' = <<>> /\ NoCall /\ UNCHANGED doomed
+             /\ Log([a |-> "LoopBarrier", sr |-> s, n |-> n, last |-> FALSE, mismatch |-> TRUE, calls |-> <<>>, allow |-> Allow, err |-> TRUE])
              /\ UNCHANGED <<nclosed, batch, token, armed, seen, fired, timers>>
         ELSE LET c2 == [c1 EXCEPT !.missing = @ \ {s}]
              IN IF c2.missing # {}
-                THEN /\ ck' = c2 /\ Return(s) /\ lastcalls' = <<>>
-                     /\ Log([a |-> "LoopBarrier", sr |-> s, n |-> n, last |-> FALSE, mismatch |-> FALSE, calls |-> <<>>, allow |-> Allow])
+                THEN /\ ck' = c2 /\ Return(s) /\ lastcalls' = <<>> /\ NoCall /\ UNCHANGED doomed
+                     /\ Log([a |-> "LoopBarrier", sr |-> s, n |-> n, last |-> FALSE, mismatch |-> FALSE, calls |-> <<>>, allow |-> Allow, err |-> FALSE])
                      /\ UNCHANGED <<nclosed, batch, token, armed, seen, fired, timers>>
-                ELSE \* last barrier: close the channel, flush the pending batch
-                     LET m == Process(M, Comp(wm))
-                     IN /\ ck' = c2 /\ nclosed' = n /\ SetM(m)
-                        /\ lph' = "ack" /\ UNCHANGED <<loop, pc>>
-                        /\ Log([a |-> "LoopBarrier", sr |-> s, n |-> n, last |-> TRUE, mismatch |-> FALSE, calls |-> m.calls, allow |-> Allow])
+                ELSE \* last barrier: close the channel, flush the pending batch with the caller's context
+                     LET m == Process(M, Comp(wm), cx[s])
+                         stop == m.err /\ ~Dev_IgnoreBarrierFlushError
+                     IN /\ ck' = c2 /\ nclosed' = n /\ SetM(m) /\ doomed' = (doomed \/ m.err)
+                        /\ IF stop THEN Fail(s)       \* the barrier fails; the checkpoint object stays, all barriers registered
+                                   ELSE lph' = "ack" /\ UNCHANGED <<loop, pc>>
+                        /\ Log([a |-> "LoopBarrier", sr |-> s, n |-> n, last |-> TRUE, mismatch |-> FALSE, calls |-> m.calls, allow |-> Allow, err |-> stop])
+  /\ FaultKeep
   /\ UNCHANGED <<slen, sent, waitfor, nskip, inflight, nfired, wm, cut, acks>>
 
-\* db.Checkpoint(id); job.OperatorCheckpointComplete; o.checkpoint = nil
+\* db.Checkpoint(id); job.OperatorCheckpointComplete(ctx of the caller); o.checkpoint = nil
 CompleteCheckpoint ==
   /\ loop # 0 /\ lph = "ack"
   /\ LET n == ck.id
          c == [seen |-> seen, fired |-> fired, timers |-> timers]
-     IN /\ cut' = [x \in DOMAIN cut \cup {n} |-> IF x = n THEN c ELSE cut[x]]
-        /\ acks' = Append(acks, n)
-        /\ Log([a |-> "CompleteCheckpoint", sr |-> loop, n |-> n, cut |-> c, demand |-> CutDemand(n), cutwm |-> CutWm(n)])
-  /\ ck' = NoCk /\ Return(loop) /\ lastcalls' = <<>>
+         rfail == cx[loop] /\ ~Dev_ReportWithoutCancel
+     IN IF rfail
+        THEN \* the report fails: the barrier call returns the error, o.checkpoint is not reset
+             /\ Fail(loop) /\ doomed' = TRUE
+             /\ Log([a |-> "CompleteCheckpoint", sr |-> loop, n |-> n, err |-> TRUE])
+             /\ UNCHANGED <<cut, acks, ck>>
+        ELSE /\ cut' = [x \in DOMAIN cut \cup {n} |-> IF x = n THEN c ELSE cut[x]]
+             /\ acks' = Append(acks, n)
+             /\ Log([a |-> "CompleteCheckpoint", sr |-> loop, n |-> n, cut |-> c, demand |-> CutDemand(n), cutwm |-> CutWm(n), err |-> FALSE])
+             /\ ck' = NoCk /\ Return(loop) /\ UNCHANGED doomed
+  /\ lastcalls' = <<>> /\ NoCall /\ FaultKeep
   /\ UNCHANGED <<slen, sent, waitfor, nskip, nclosed, batch, token, armed, inflight, nfired, wm, seen, fired, timers>>
 
 TimerFire ==
   /\ LoopFree /\ armed # None /\ nfired < MaxFires
   /\ inflight' = inflight \cup {armed} /\ armed' = None /\ nfired' = nfired + 1
   /\ Log([a |-> "TimerFire", tok |-> armed])
-  /\ lastcalls' = <<>>
+  /\ lastcalls' = <<>> /\ NoFault
   /\ UNCHANGED <<slen, sent, pc, waitfor, nskip, ck, nclosed, loop, lph, batch, token, wm, seen, fired, timers, cut, acks>>
 
-\* processEvents receives a token from BatchTimedOut: processEventBatch(token)
+\* processEvents receives a token from BatchTimedOut: processEventBatch(operator ctx, token);
+\* an error ends processEvents and with it the operator
 LoopBatchTimeout(tok) ==
   /\ LoopFree /\ tok \in inflight
   /\ inflight' = inflight \ {tok}
-  /\ LET m == IF tok = token THEN Process(M, Comp(wm)) ELSE M
-     IN /\ SetM(m)
-        /\ Log([a |-> "LoopBatchTimeout", tok |-> tok, calls |-> m.calls, allow |-> Allow])
+  /\ LET m == IF tok = token THEN Process(M, Comp(wm), FALSE) ELSE M
+         stop == m.err /\ ~Dev_SwallowFlushError
+     IN /\ SetM(m) /\ doomed' = (doomed \/ m.err) /\ stopped' = stop
+        /\ Log([a |-> "LoopBatchTimeout", tok |-> tok, calls |-> m.calls, allow |-> Allow, stop |-> stop])
+  /\ UNCHANGED <<cx, ncancel, nhfail, fstart>>
   /\ UNCHANGED <<slen, sent, pc, waitfor, nskip, ck, nclosed, loop, lph, nfired, wm, cut, acks>>
 
 \* no sender can act any more: it sent everything, was refused, or waits for a
 \* checkpoint that nobody left can complete
 Finished == \A s \in Senders : \/ pc[s] = "idle" /\ Len(sent[s]) = slen[s]
                                \/ pc[s] = "dead"
-                               \/ pc[s] = "parked" /\ waitfor[s] > nclosed
-Done == /\ Finished /\ loop = 0 /\ inflight = {}
-        /\ (armed = None \/ nfired >= MaxFires)
+                               \/ pc[s] = "parked" /\ waitfor[s] > nclosed /\ ~(Dev_CtxAwareWait /\ cx[s])
+Done == \/ stopped
+        \/ /\ Finished /\ loop = 0 /\ inflight = {}
+           /\ (armed = None \/ nfired >= MaxFires)
 
 Next ==
   /\ Len(hist) < MaxLen /\ ~Done
   /\ \/ \E s \in Senders : (\E it \in Items(s) : AlignCheck(s, it)) \/ Unpark(s) \/ Enqueue(s)
      \/ LoopEvent \/ LoopWatermark \/ LoopBarrier \/ CompleteCheckpoint
      \/ TimerFire \/ \E tok \in inflight : LoopBatchTimeout(tok)
+     \/ \E s \in Senders : CancelCaller(s)
+     \/ ArmHandlerFail
 
 Spec == Init /\ [][Next]_vars
 
 -----------------------------------------------------------------------------
-\* C02, first half: checkpoint n contains exactly the effects of the events
-\* every runner delivered before its barrier n.
+\* C02, first half: every REPORTED checkpoint n contains exactly the effects of
+\* the events every runner delivered before its barrier n.  (A runner stops at
+\* the first call that returns an error, so every call in front of a delivered
+\* barrier returned nil: "delivered" = the positions before the barrier.)
 CutExact == \A n \in DOMAIN cut : cut[n].seen = CutDemand(n)
 
 \* ... including their timers: every cut event has its timer either pending or
@@ -316,35 +447,46 @@ CutTimersOK == \A n \in DOMAIN cut :
    /\ \A x \in cut[n].timers : \A y \in cut[n].fired : ~(x.sr = y.sr /\ x.idx = y.idx)
    /\ \A y \in cut[n].fired : y.T <= CutWm(n)
 
-\* C02, second half, as an action property: whatever a step hands to the
-\* handler (events, or timers fired by a watermark) does not stem from an item
-\* its runner delivered after a barrier whose checkpoint is not yet complete
-\* (acks = completed checkpoints in the state before the step).
-UnitOK(u, done) == BarriersBefore(u.csr, u.cidx) \subseteq done
-NoEarlyApply == [][\A i \in 1..Len(lastcalls') : \A j \in 1..Len(lastcalls'[i].items) :
-                      UnitOK(lastcalls'[i].items[j], Rg(acks))]_vars
+\* C02, second half, as an action property: whatever a step applies through
+\* the handler (events, or timers fired by a watermark) does not stem from an
+\* item its runner delivered after a barrier whose checkpoint is not yet
+\* complete (acks = completed checkpoints in the state before the step).  Not
+\* demanded of an operator instance that already handed out a failure (doomed):
+\* it never reports a checkpoint again.
+NoEarlyApply == [][doomed \/ ~EarlyIn(lastcalls')]_vars
+NotEarly == ~early
 
 \* design-level strengthening: no post-barrier item even reaches the loop
-NoEarlyEnqueue == [][\A s \in Senders : (loop = 0 /\ loop' = s) => BarriersBefore(s, Len(sent[s])) \subseteq Rg(acks)]_vars
+NoEarlyEnqueue == [][\A s \in Senders : (loop = 0 /\ loop' = s /\ ~doomed) => BarriersBefore(s, Len(sent[s])) \subseteq Rg(acks)]_vars
 
 \* nothing post-barrier hides in the pending batch either
-BatchOK == \A i \in 1..Len(batch) : UnitOK(batch[i], Rg(acks))
+BatchOK == doomed \/ \A i \in 1..Len(batch) : UnitOK(batch[i], Rg(acks))
 
 \* a checkpoint is only acknowledged when every runner delivered its barrier
 AckedByAll == \A n \in DOMAIN cut : \A s \in Senders : BarrierPos(s, n) > 0
 AcksInOrder == acks = [i \in 1..Len(acks) |-> i]
 ParkedOK == \A s \in Senders : pc[s] = "parked" => waitfor[s] = Max0(BarriersBefore(s, Len(sent[s]))) /\ waitfor[s] >= 1
-\* without skipped barriers nothing gets stuck and nothing is lost
-NoLossAtEnd == (Done /\ nskip = 0) =>
+\* without skipped barriers and faults nothing gets stuck and nothing is lost
+NoLossAtEnd == (Done /\ nskip = 0 /\ ncancel = 0 /\ nhfail = 0) =>
                        /\ \A s \in Senders : pc[s] = "idle"
                        /\ DOMAIN cut = 1..K
                        /\ UNION {{[sr |-> s, idx |-> i] : i \in {j \in 1..Len(sent[s]) : sent[s][j].k = "e"}} : s \in Senders}
                             \subseteq seen \cup {[sr |-> u.sr, idx |-> u.idx] : u \in {batch[i] : i \in 1..Len(batch)}}
+\* design: an operator instance that handed out a failure never reports again
+\* (ghost check of the argument in the header; not a verdict about the code)
+NoReportAfterDoom == [][doomed => acks' = acks]_vars
+\* fault-free runs are never doomed
+DoomOnlyByFault == doomed => (ncancel > 0 \/ nhfail > 0)
 
 TypeOK == /\ loop \in 0..NS /\ lph \in {"run", "ack"} /\ nclosed \in 0..K
           /\ ck.missing \subseteq Senders
           /\ \A s \in Senders : pc[s] \in {"idle", "parked", "pass", "loop", "dead"}
+          /\ cx \in [Senders -> BOOLEAN] /\ failnext \in BOOLEAN /\ stopped \in BOOLEAN
 
 -----------------------------------------------------------------------------
 Dump == (Done \/ Len(hist) >= MaxLen) => PrintT(<<"BEHAVIOUR", ToJson(hist)>>)
+\* regression witnesses (a Dev_* constant switched on): the history of every
+\* state in which a reported checkpoint is not the demanded cut or a
+\* post-barrier unit was applied early
+CexDump == (~CutExact \/ early) => PrintT(<<"BEHAVIOUR", ToJson(hist)>>)
 =============================================================================
